@@ -107,7 +107,7 @@ package stree
 //@   ensures [assumed] keys: forall k int :: {inK(result, k)} inK(result, k) <==> old(inK(root, k))
 //@   ensures [assumed] desc: forall y ref :: {inD(result, y)} inD(result, y) <==> old(inD(root, y))
 //@   ensures [assumed] reps: forall k int :: {result.rep[k]} inK(result, k) ==> result.rep[k] == old(root.rep[k])
-//@   ensures [assumed] frame: forall y *node[T] :: {y.left} {y.right} {y.X} {y.keys} {y.desc} old(allocated(y)) && !old(inD(root, y)) ==> sameNode(y)
+//@   ensures [assumed] frame: forall y *node[T] :: {y.left} {y.right} {y.X} {y.keys} {y.desc} {y.cnt} {y.rep} old(allocated(y)) && !old(inD(root, y)) ==> sameNode(y)
 //@   modifies every(root.left), every(root.right), every(root.keys), every(root.desc), every(root.cnt), every(root.rep)
 //@
 //@ func (*Tree).insert
@@ -120,7 +120,7 @@ package stree
 //@   ensures  [C01] new: (result.1 <==> nw != nil) && (nw != nil ==> fresh(nw))
 //@   ensures  [C01] reps: forall k int :: {result.0.rep[k]} k in result.0.keys ==> result.0.rep[k] == ite(k == rank(t.compare, key) && (replace || !old(inK(root, k))), key, old(root.rep[k]))
 //@   ensures  [C01] count: cntOf(result.0) == old(cntOf(root)) + ite(result.1, 1, 0) && (result.2 > 0 ==> result.2 == cntOf(result.0))
-//@   ensures  [C01] frame: forall y *node[T] :: {y.left} {y.right} {y.X} {y.keys} {y.desc} old(allocated(y)) && !old(inD(root, y)) ==> sameNode(y)
+//@   ensures  [C01] frame: forall y *node[T] :: {y.left} {y.right} {y.X} {y.keys} {y.desc} {y.cnt} {y.rep} old(allocated(y)) && !old(inD(root, y)) ==> sameNode(y)
 //@   modifies every(root.left), every(root.right), every(root.X), every(root.keys), every(root.desc), every(root.cnt), every(root.rep)
 //@   at entry: ghost nw = nil
 //@   at return 1: ghost nw = result.0
@@ -154,7 +154,7 @@ package stree
 //@   at after "root.left = ins": assert [C01] treeOK(root, t.compare)
 //@   at after "root.left = ins": assert [C01] forall k int :: {k in root.keys} k in root.keys <==> (k == rank(t.compare, key) || old(inK(root, k)))
 //@   at after "root.left = ins": assert [C01] forall y ref :: {y in root.desc} y in root.desc <==> (old(inD(root, y)) || (nw != nil && y == nw))
-//@   at after "root.left = ins": assert [C01] forall y *node[T] :: {y.left} {y.right} {y.X} {y.keys} {y.desc} old(allocated(y)) && !old(inD(root, y)) ==> sameNode(y)
+//@   at after "root.left = ins": assert [C01] forall y *node[T] :: {y.left} {y.right} {y.X} {y.keys} {y.desc} {y.cnt} {y.rep} old(allocated(y)) && !old(inD(root, y)) ==> sameNode(y)
 //@   at after "root.right = ins": assert [C01] (forall w ref :: {w in ins.desc} w in ins.desc ==> w in root.desc) && (forall k int :: {k in ins.keys} k in ins.keys ==> k in root.keys)
 //@   at after "root.right = ins": assert [C01] (forall w ref :: {w in root.left.desc} inD(root.left, w) ==> w in root.desc) && (forall k int :: {k in root.left.keys} inK(root.left, k) ==> k in root.keys)
 //@   at after "root.right = ins": assert [C01] forall z *node[T] :: {z in ins.desc} z in ins.desc ==> local(z, t.compare) && closed(z)
@@ -164,7 +164,7 @@ package stree
 //@   at after "root.right = ins": assert [C01] treeOK(root, t.compare)
 //@   at after "root.right = ins": assert [C01] forall k int :: {k in root.keys} k in root.keys <==> (k == rank(t.compare, key) || old(inK(root, k)))
 //@   at after "root.right = ins": assert [C01] forall y ref :: {y in root.desc} y in root.desc <==> (old(inD(root, y)) || (nw != nil && y == nw))
-//@   at after "root.right = ins": assert [C01] forall y *node[T] :: {y.left} {y.right} {y.X} {y.keys} {y.desc} old(allocated(y)) && !old(inD(root, y)) ==> sameNode(y)
+//@   at after "root.right = ins": assert [C01] forall y *node[T] :: {y.left} {y.right} {y.X} {y.keys} {y.desc} {y.cnt} {y.rep} old(allocated(y)) && !old(inD(root, y)) ==> sameNode(y)
 //@   call rewrite#1: cmp = t.compare
 //@   call size#1: cmp = t.compare
 //@
@@ -206,7 +206,7 @@ package stree
 //@   ensures [C01,C04] desc: forall y ref :: {inD(root.right, y)} inD(root.right, y) <==> old(y in root.right.desc) && y != result
 //@   ensures [C01,C04] reps: forall k int :: {root.right.rep[k]} inK(root.right, k) ==> root.right.rep[k] == old(root.right.rep[k])
 //@   ensures [C01,C04] top: root.left == old(root.left) && root.X == old(root.X) && root.keys == old(root.keys) && root.desc == old(root.desc) && root.cnt == old(root.cnt) && root.rep == old(root.rep) && cntOf(root.right) == old(cntOf(root.right)) - 1
-//@   ensures [C01,C04] frame: forall y *node[T] :: {y.left} {y.right} {y.X} {y.keys} {y.desc} old(allocated(y)) && !old(y in root.right.desc) && y != root ==> sameNode(y)
+//@   ensures [C01,C04] frame: forall y *node[T] :: {y.left} {y.right} {y.X} {y.keys} {y.desc} {y.cnt} {y.rep} old(allocated(y)) && !old(y in root.right.desc) && y != root ==> sameNode(y)
 //@   modifies every(root.left), every(root.right), every(root.keys), every(root.desc), every(root.cnt), every(root.rep)
 //@   at entry: ghost D0 = root.right.desc
 //@   at entry: ghost K0 = root.right.keys
@@ -232,7 +232,7 @@ package stree
 //@   ensures  [C01] reps: forall k int :: {result.0.rep[k]} inK(result.0, k) ==> result.0.rep[k] == old(n.rep[k])
 //@   ensures  [C01] count: cntOf(result.0) == old(cntOf(n)) - ite(result.1, 1, 0)
 //@   ensures  [C01] gone: (result.1 <==> gone != nil) && (gone != nil ==> n != nil && gone in old(n.desc))
-//@   ensures  [C01] frame: forall y *node[T] :: {y.left} {y.right} {y.X} {y.keys} {y.desc} old(allocated(y)) && !old(inD(n, y)) ==> sameNode(y)
+//@   ensures  [C01] frame: forall y *node[T] :: {y.left} {y.right} {y.X} {y.keys} {y.desc} {y.cnt} {y.rep} old(allocated(y)) && !old(inD(n, y)) ==> sameNode(y)
 //@   modifies every(n.left), every(n.right), every(n.X), every(n.keys), every(n.desc), every(n.cnt), every(n.rep)
 //@   at entry: ghost gone = nil
 //@   at after "n.left, ok = n.left.remove(key, compare)": ghost gone = remove_gone
@@ -273,6 +273,46 @@ package stree
 //@   at exit: ghost t.elems = setdel(t.elems, rank(t.compare, key))
 //@   call rewrite#1: cmp = t.compare
 //@
+// New. The nodes made from the given keys are sorted by rank (slices.SortFunc), runs of equal rank are cut down to their
+// first node (slices.CompactFunc), and extract builds the tree: every given key's class is in the set, nothing else
+// is, and the representative stored for a class is one of the given keys of that class. limitFunc (floating point)
+// is opaque: it returns some pure function.
+//@ func limitFunc trusted: returns a closure over floating-point logarithms; only that it is a function value is used
+//@   ensures result != nil
+//@
+//@ lemma cardSplit(a set[int], b set[int], c set[int], x int) trusted: (forall k int :: {k in a} k in a <==> (k == x || k in b || k in c)) && !(x in b) && !(x in c) && (forall k int :: {k in b} {k in c} !(k in b && k in c)) ==> card(a) == 1 + card(b) + card(c)
+//@
+//@ func New
+//@   role compare ord
+//@   ghostret from imap[int]
+//@   panics when β < 0 || β > 1000
+//@   ensures  [C01] inv: result != nil && fresh(result) && treeInv(result) && sizeInv(result) && result.compare == compare
+//@   ensures  [C01] all: forall i int :: {keys[i]} 0 <= i && i < len(keys) ==> rank(compare, keys[i]) in result.elems
+//@   ensures  [C01] only: forall k int :: {k in result.elems} k in result.elems ==> 0 <= from[k] && from[k] < len(keys) && rank(compare, keys[from[k]]) == k && result.vals[k] == keys[from[k]]
+//@   ensures  [C01] input: unchanged(elems(keys))
+//@   call extract#1: cmp = compare
+//@   loop 1: invariant [C01] made: 0 <= it1 && len(nodes) == len(keys) && fresh(nodes) && unchanged(elems(keys)) && tree != nil && fresh(tree) && tree.root == nil && tree.compare == compare && tree.size == 0 && tree.max == 0
+//@   loop 1: invariant [C01] nodes: forall k int :: {nodes[k]} 0 <= k && k < it1 ==> nodes[k] != nil && fresh(nodes[k]) && nodes[k].X == keys[k]
+//@   loop 1: invariant [C01] apart: forall a int, b int :: {nodes[a], nodes[b]} 0 <= a && a < b && b < it1 ==> nodes[a] != nodes[b]
+//@   at before "if len(keys) != 0": ghost tree.elems = emptyset(tree.elems)
+//@   at before "if len(keys) != 0": ghost from = lambda k int :: 0
+//@   at loop 1 exit: ghost n0 = snap(nodes)
+//@   at after "slices.SortFunc(nodes, func(a, b *node[T]) int { return compare(a.X, b.X) })": ghost sp = SortFunc_p
+//@   at after "slices.SortFunc(nodes, func(a, b *node[T]) int { return compare(a.X, b.X) })": ghost sq = SortFunc_q
+//@   at after "slices.SortFunc(nodes, func(a, b *node[T]) int { return compare(a.X, b.X) })": ghost n1 = snap(nodes)
+//@   at after "slices.SortFunc(nodes, func(a, b *node[T]) int { return compare(a.X, b.X) })": assert [C01] forall k int :: {nodes[k]} 0 <= k && k < len(nodes) ==> 0 <= sp[k] && sp[k] < len(nodes) && nodes[k] == n0[addr(nodes, sp[k])] && nodes[k] != nil && fresh(nodes[k]) && nodes[k].X == keys[sp[k]] && sq[sp[k]] == k
+//@   at after "slices.SortFunc(nodes, func(a, b *node[T]) int { return compare(a.X, b.X) })": assert [C01] forall a int, b int :: {nodes[a], nodes[b]} 0 <= a && a < b && b < len(nodes) ==> nodes[a] != nodes[b] && rank(compare, nodes[a].X) <= rank(compare, nodes[b].X)
+//@   at after "tree.max = len(nodes)": ghost cs = CompactFunc_src
+//@   at after "tree.max = len(nodes)": ghost ck = CompactFunc_keep
+//@   at after "tree.max = len(nodes)": assert [C01] forall i int :: {nodes[i]} 0 <= i && i < len(nodes) ==> 0 <= cs[i] && cs[i] < len(keys) && nodes[i] == n1[addr(nodes, cs[i])] && nodes[i] != nil && fresh(nodes[i]) && nodes[i].X == keys[sp[cs[i]]]
+//@   at after "tree.max = len(nodes)": assert [C01] forall a int, b int :: {nodes[a], nodes[b]} 0 <= a && a < b && b < len(nodes) ==> cs[a] < cs[b] && nodes[a] != nodes[b] && rank(compare, nodes[a].X) <= rank(compare, nodes[b].X)
+//@   at after "tree.max = len(nodes)": assert [C01] forall a int, b int :: {nodes[a], nodes[b]} 0 <= a && b == a + 1 && b < len(nodes) ==> rank(compare, nodes[a].X) < rank(compare, nodes[b].X)
+//@   at after "tree.max = len(nodes)": assert [C01] forall a int, b int :: {nodes[a], nodes[b]} 0 <= a && a < b && b < len(nodes) ==> rank(compare, nodes[a].X) < rank(compare, nodes[b].X)
+//@   at after "tree.root = extract(nodes)": ghost tree.elems = ite(tree.root == nil, emptyset(tree.elems), tree.root.keys)
+//@   at after "tree.root = extract(nodes)": ghost tree.vals = tree.root.rep
+//@   at after "tree.root = extract(nodes)": ghost from = lambda k int :: sp[cs[extract_ki[k]]]
+//@   at after "tree.root = extract(nodes)": assert [C01] forall i int :: {keys[i]} 0 <= i && i < len(keys) ==> 0 <= sq[i] && sq[i] < len(keys) && 0 <= ck[sq[i]] && ck[sq[i]] < len(nodes) && rank(compare, nodes[ck[sq[i]]].X) == rank(compare, keys[i])
+//@
 // extract builds a search tree from a slice of pairwise different nodes sorted by strictly ascending rank (what New
 // passes after sorting and compacting): the ghost fields of every node of the slice are set on the way back up.
 // ni and ki are witnesses: the position in the slice of every node, respectively of every key, of the result.
@@ -284,11 +324,12 @@ package stree
 //@   requires [C01] sorted: forall a int, b int :: {nodes[a], nodes[b]} 0 <= a && a < b && b < len(nodes) ==> rank(cmp, nodes[a].X) < rank(cmp, nodes[b].X)
 //@   ensures  [C01] nil: (len(nodes) == 0) == (result == nil)
 //@   ensures  [C01] shape: treeOK(result, cmp) && cntOf(result) == len(nodes)
+//@   ensures  [C01] card: result != nil ==> card(result.keys) == len(nodes)
 //@   ensures  [C01] members: forall k int :: {nodes[k]} 0 <= k && k < len(nodes) ==> inD(result, nodes[k]) && inK(result, rank(cmp, nodes[k].X)) && result.rep[rank(cmp, nodes[k].X)] == nodes[k].X
 //@   ensures  [C01] onlyNodes: forall y ref :: {inD(result, y)} inD(result, y) ==> 0 <= ni[y] && ni[y] < len(nodes) && nodes[ni[y]] == y
 //@   ensures  [C01] onlyKeys: forall k int :: {inK(result, k)} inK(result, k) ==> 0 <= ki[k] && ki[k] < len(nodes) && rank(cmp, nodes[ki[k]].X) == k
 //@   ensures  [C01] values: forall y *node[T] :: {y.X} old(allocated(y)) ==> y.X == old(y.X)
-//@   ensures  [C01] frame: forall y *node[T] :: {y.left} {y.right} {y.keys} {y.desc} old(allocated(y)) && !inD(result, y) ==> sameNode(y)
+//@   ensures  [C01] frame: forall y *node[T] :: {y.left} {y.right} {y.keys} {y.desc} {y.cnt} {y.rep} old(allocated(y)) && !inD(result, y) ==> sameNode(y)
 //@   ensures  [C01] slice: unchanged(elems(nodes))
 //@   modifies every(nodes[0].left), every(nodes[0].right), every(nodes[0].keys), every(nodes[0].desc), every(nodes[0].cnt), every(nodes[0].rep)
 //@   decreases len(nodes)
@@ -309,10 +350,13 @@ package stree
 //@   at after "root.right = extract(nodes[mid+1:])": assert [C01] forall y ref :: {inD(root.right, y)} inD(root.right, y) ==> 0 <= niR[y] && mid + 1 + niR[y] < len(nodes) && nodes[mid + 1 + niR[y]] == y
 //@   at after "root.right = extract(nodes[mid+1:])": assert [C01] forall k int :: {inK(root.right, k)} inK(root.right, k) ==> 0 <= kiR[k] && mid + 1 + kiR[k] < len(nodes) && rank(cmp, nodes[mid + 1 + kiR[k]].X) == k && k > rank(cmp, root.X)
 //@   at after "root.right = extract(nodes[mid+1:])": assert [C01] !inD(root.right, root) && (forall y ref :: {inD(root.left, y)} {inD(root.right, y)} !(inD(root.left, y) && inD(root.right, y)))
+//@   at after "root.left = extract(nodes[:mid])": assert [C01] forall y *node[T] :: {inD(root.left, y)} inD(root.left, y) ==> (y.left != nil ==> inD(root.left, y.left)) && (y.right != nil ==> inD(root.left, y.right))
+//@   at after "root.right = extract(nodes[mid+1:])": assert [C01] forall y *node[T] :: {inD(root.left, y)} inD(root.left, y) ==> !inD(root.right, y) && (y.left != nil ==> inD(root.left, y.left) && !inD(root.right, y.left)) && (y.right != nil ==> inD(root.left, y.right) && !inD(root.right, y.right))
 //@   at after "root.right = extract(nodes[mid+1:])": assert [C01] treeOK(root.left, cmp)
 //@   at after "root.right = extract(nodes[mid+1:])": ghost root.keys = lambda k int :: k == rank(cmp, root.X) || inK(root.left, k) || inK(root.right, k)
 //@   at after "root.right = extract(nodes[mid+1:])": ghost root.desc = lambda y int :: y == root || inD(root.left, y) || inD(root.right, y)
 //@   at after "root.right = extract(nodes[mid+1:])": ghost root.cnt = 1 + cntOf(root.left) + cntOf(root.right)
+//@   at after "root.right = extract(nodes[mid+1:])": apply cardSplit(root.keys, ite(root.left == nil, emptyset(root.keys), root.left.keys), ite(root.right == nil, emptyset(root.keys), root.right.keys), rank(cmp, root.X))
 //@   at after "root.right = extract(nodes[mid+1:])": ghost root.rep = lambda k int :: ite(k == rank(cmp, root.X), root.X, ite(inK(root.left, k), root.left.rep[k], root.right.rep[k]))
 //@   at after "root.right = extract(nodes[mid+1:])": ghost ni = lambda y int :: ite(y == root, mid, ite(inD(root.left, y), niL[y], mid + 1 + niR[y]))
 //@   at after "root.right = extract(nodes[mid+1:])": ghost ki = lambda k int :: ite(k == rank(cmp, root.X), mid, ite(inK(root.left, k), kiL[k], mid + 1 + kiR[k]))
@@ -327,7 +371,7 @@ package stree
 //@   ensures  [C01] shape: treeOK(result, cmp)
 //@   ensures  [C01] same: n != nil ==> result.X == n.X && result.cnt == n.cnt && (forall k int :: {k in result.keys} k in result.keys <==> k in n.keys) && (forall k int :: {result.rep[k]} k in n.keys ==> result.rep[k] == n.rep[k])
 //@   ensures  [C01] fresh: forall y ref :: {inD(result, y)} inD(result, y) ==> !old(allocated(y))
-//@   ensures  [C01] frame: forall y *node[T] :: {y.left} {y.right} {y.X} {y.keys} {y.desc} old(allocated(y)) ==> sameNode(y)
+//@   ensures  [C01] frame: forall y *node[T] :: {y.left} {y.right} {y.X} {y.keys} {y.desc} {y.cnt} {y.rep} old(allocated(y)) ==> sameNode(y)
 //@   decreases cntOf(n)
 //@   call clone#1: cmp = cmp
 //@   call clone#2: cmp = cmp
@@ -341,7 +385,7 @@ package stree
 //@   ensures  [C01] inv: result != nil && fresh(result) && treeInv(result) && sizeInv(result)
 //@   ensures  [C01] same: result.compare == t.compare && result.size == t.size && (forall k int :: {k in result.elems} k in result.elems <==> k in t.elems) && (forall k int :: {result.vals[k]} k in t.elems ==> result.vals[k] == t.vals[k])
 //@   ensures  [C01] apart: forall y ref :: {inD(result.root, y)} inD(result.root, y) ==> !old(allocated(y))
-//@   ensures  [C01] frame: forall y *node[T] :: {y.left} {y.right} {y.X} {y.keys} {y.desc} old(allocated(y)) ==> sameNode(y)
+//@   ensures  [C01] frame: forall y *node[T] :: {y.left} {y.right} {y.X} {y.keys} {y.desc} {y.cnt} {y.rep} old(allocated(y)) ==> sameNode(y)
 //@   ensures  [C01] original: treeInv(t) && sizeInv(t) && t.root == old(t.root) && t.elems == old(t.elems) && t.vals == old(t.vals)
 //@   call clone#1: cmp = t.compare
 //@   at exit: ghost result.elems = t.elems
